@@ -98,17 +98,21 @@ def mkVal (cfg : Cfg) (s : Src) : WM Val :=
     if i < x.len then pure (.lazyElem v i)
     else WM.panic "called `Option::unwrap()` on a `None` value"
 
+/-- `match range.start_bound()` of `into_range` -/
+def rangeStart : Bnd → Res Nat
+  | .incl i => .ok i
+  | .excl i => checkedAdd i 1 "range start overflow"
+  | .unb => .ok 0
+
+/-- `match range.end_bound()` of `into_range` -/
+def rangeEnd (len : Nat) : Bnd → Res Nat
+  | .incl i => checkedAdd i 1 "range end overflow"
+  | .excl i => .ok i
+  | .unb => .ok len
+
 /-- `lib.rs into_range(len, range)` -/
 def intoRange (len : Nat) (lo hi : Bnd) : Res (Nat × Nat) :=
-  let start : Res Nat := match lo with
-    | .incl i => .ok i
-    | .excl i => checkedAdd i 1 "range start overflow"
-    | .unb => .ok 0
-  let end_ : Res Nat := match hi with
-    | .incl i => checkedAdd i 1 "range end overflow"
-    | .excl i => .ok i
-    | .unb => .ok len
-  match start, end_ with
+  match rangeStart lo, rangeEnd len hi with
   | .ok s, .ok e =>
     if s ≤ e then (if e ≤ len then .ok (s, e) else .panic "assertion failed: end <= len")
     else .panic "assertion failed: start <= end"
